@@ -21,13 +21,13 @@ var inOutByDesign = map[string]string{
 }
 
 type frameOpts struct {
-	prop           string
-	argWrites      bool // no write through a non-receiver parameter
-	freshBytes     bool // returned []byte fresh
-	ptrResults     bool // pointer results ⊆ {receiver, fresh}; constructors/Copy fresh
-	globals        bool // no write to / hand-out of / retention in package-level state
-	receiverOnly   bool
-	label          string
+	prop         string
+	argWrites    bool // no write through a non-receiver parameter
+	freshBytes   bool // returned []byte fresh
+	ptrResults   bool // pointer results ⊆ {receiver, fresh}; constructors/Copy fresh
+	globals      bool // no write to / hand-out of / retention in package-level state
+	receiverOnly bool
+	label        string
 }
 
 func hasRecv(f *ssa.Function) bool { return f.Signature.Recv() != nil }
@@ -224,7 +224,6 @@ func isErr(t types.Type) bool {
 	n, ok := t.(*types.Named)
 	return ok && n.Obj().Pkg() == nil && n.Obj().Name() == "error"
 }
-
 
 // isAppender: parameter key k of f is a byte-slice output buffer in the sense of the append contract - f is named
 // Append…, every write f makes to the parameter is an append behind its length, and a slice result of f is (an
